@@ -40,10 +40,11 @@ pub fn bounds(tier: Tier) -> Vec<ConvBound> {
             mk(Fam::Map, 0, vec![rc(2, true), rc(1, true)], 5, 0),
             mk(Fam::Map, 0, vec![rc(1, false), rc(2, true)], 5, 0),
             mk(Fam::Map, 1, vec![rc(1, true), rc(2, true), rc(3, true)], 3, 0),
-            mk(Fam::Map, 0, vec![rc(3, true), rc(1, true), rc(2, true)], 4, 0),
             mk(Fam::Nest, 0, vec![rc(1, true), rc(2, false)], 3, 0),
         ],
         Tier::Thorough => vec![
+            mk(Fam::Map, 0, vec![rc(2, true), rc(1, true)], 6, 0),
+            mk(Fam::Map, 0, vec![rc(1, false), rc(2, true)], 5, 1),
             mk(Fam::Map, 1, vec![rc(1, true), rc(2, true)], 4, 1),
             mk(Fam::Map, 1, vec![rc(2, true), rc(1, false)], 4, 0),
             mk(Fam::Map, 0, vec![rc(1, true), rc(2, true), rc(3, true)], 4, 0),
